@@ -91,7 +91,7 @@ impl SubCheck for CrashSemantics {
         "crash_points_enumerated"
     }
     fn cases(&self, tier: Tier) -> u32 {
-        tier.pick(600, 12000)
+        tier.pick(2500, 30000)
     }
     fn strategy(&self, _tier: Tier) -> BoxedStrategy<SysDesc> {
         sys_strategy(crash_params())
@@ -138,7 +138,7 @@ impl SubCheck for CheckerLevel {
         "checker_explores_every_crash_combination"
     }
     fn cases(&self, tier: Tier) -> u32 {
-        tier.pick(300, 6000)
+        tier.pick(1000, 15000)
     }
     fn strategy(&self, _tier: Tier) -> BoxedStrategy<Self::Case> {
         let mut p = crash_params();
